@@ -183,6 +183,10 @@ FaceHandle TopologyKernel::add_face(std::vector<HalfEdgeHandle> _halfedges, bool
 
     // Perform topology check
     if(_topologyCheck) {
+        if (_halfedges.empty()) {
+            // an empty list is not a closed loop
+            return InvalidFaceHandle;
+        }
         for (size_t i = 0; i + 1< _halfedges.size(); ++i) {
             if (to_vertex_handle(_halfedges[i]) != from_vertex_handle(_halfedges[i+1])) {
                 return InvalidFaceHandle;
@@ -392,6 +396,11 @@ CellHandle TopologyKernel::add_cell(std::vector<HalfFaceHandle> _halffaces, bool
 
 
     if(_topologyCheck) {
+
+        if (_halffaces.empty()) {
+            // an empty list is not a closed surface
+            return InvalidCellHandle;
+        }
 
         /*
          * We test the following necessary properties for a closed 2-manifold cell:
